@@ -487,8 +487,32 @@ func (w *world) exec(batch []*sub, fail string) error {
 	if err != nil {
 		return err
 	}
-	w.tr.emit(w.tr.withPost(M{"e": "commit", "t": w.now, "fail": fail, "err": storeErr, "txs": txs}, post))
+	ev := w.tr.withPost(M{"e": "commit", "t": w.now, "fail": fail, "err": storeErr, "txs": txs}, post)
+	if ev["same"] == true && fail == "none" && !storeErr && bgReadsOnly(batch, w) {
+		// a batch of background reads that left the projection unchanged carries nothing the
+		// specification uses; it is counted, not logged
+		w.tr.skipped++
+		return nil
+	}
+	w.tr.emit(ev)
 	return nil
+}
+
+func bgReadsOnly(batch []*sub, w *world) bool {
+	for _, s := range batch {
+		if _, bg := w.owner(s); bg == "" {
+			return false
+		}
+		for _, c := range s.sqe.Submission.Store.Transaction.Commands {
+			switch c.Kind {
+			case t_aio.ReadPromise, t_aio.ReadPromises, t_aio.SearchPromises, t_aio.ReadSchedule, t_aio.ReadSchedules,
+				t_aio.SearchSchedules, t_aio.ReadTask, t_aio.ReadTasks, t_aio.ReadEnqueueableTasks, t_aio.ReadLock:
+			default:
+				return false
+			}
+		}
+	}
+	return true
 }
 
 // cmdInfos: per command, its kind, the id it targets and the rows it reported.
@@ -645,8 +669,9 @@ func cmdInfos(tx *t_aio.Transaction, results []*t_aio.Result) []any {
 // ---------------------------------------------------------------------------------------
 
 type tracer struct {
-	f    *os.File
-	n    int
+	f       *os.File
+	n       int
+	skipped int
 	last string // JSON of the last projection written
 }
 
